@@ -1134,7 +1134,55 @@ def _baselines(ops, ncpu, herr):
     return base, payloads, info
 
 
+# ---------------------------------------------------------------------------------------------- helper histories (memo tables)
+TTF_FONTS = ("/usr/share/fonts/truetype/dejavu/DejaVuSans.ttf", "/usr/share/fonts/truetype/dejavu/DejaVuSerif.ttf")
+TTF_GLYPH_LISTS = ([20, 21], [22, 23], [20, 21, 22], [23], [], [21, 20])
+
+
+def _ttf_helper():
+    """(function, cache dict) of the PDF extractor's font analysis, or None when the library has no such helper (any more)"""
+    try:
+        from sharepoint2text.parsing.extractors.pdf import pdf_extractor as PX
+    except Exception:  # noqa
+        return None
+    fn, cache = getattr(PX, "_ttf_get_glyph_features", None), getattr(PX, "_FONT_CACHE", None)
+    return (fn, cache) if callable(fn) and isinstance(cache, dict) else None
+
+
+def _ttf_history(font, seq):
+    """run the glyph-list sequence on one font from an empty memo; -> [(clause, message)]: every answer must equal the answer the
+    same call gives when it is the first call of the process (memo empty)"""
+    h = _ttf_helper()
+    if h is None or not os.path.exists(font):
+        return []
+    fn, cache = h
+    data = open(font, "rb").read()
+    alone = []
+    for ids in seq:
+        cache.clear()
+        alone.append(repr(fn(data, list(ids))))
+    cache.clear()
+    out = []
+    for i, ids in enumerate(seq):
+        got = repr(fn(data, list(ids)))
+        if got != alone[i]:
+            out.append(("history-result", f"font analysis of glyphs {ids} after {seq[:i]} gives {got[:120]}, alone {alone[i][:120]}"))
+            break
+    cache.clear()
+    return out
+
+
+def helper_histories(quick):
+    fonts = [f for f in TTF_FONTS if os.path.exists(f)][: 1 if quick else 2]
+    n = 2 if quick else 3
+    for f in fonts:
+        for seq in itertools.product(range(len(TTF_GLYPH_LISTS)), repeat=n):
+            yield {"helper": "ttf", "font": f, "history": [TTF_GLYPH_LISTS[i] for i in seq]}
+
+
 def reexec(fmt, case):
+    if fmt == "helper":
+        return _ttf_history(case["font"], case["history"])
     if fmt == "sched":
         key, msgs, s = run_schedule(case["target"], case["threads"], case["trace"])
         _target(case["target"]).setup()
@@ -1152,6 +1200,12 @@ def reexec(fmt, case):
 
 
 def shrinks(case):
+    if "helper" in case:
+        h = case["history"]
+        for i in range(len(h)):
+            if len(h) > 1:
+                yield dict(case, history=h[:i] + h[i + 1:])
+        return
     if "trace" in case:
         tr = case["trace"]
         for i, c in enumerate(tr):
@@ -1175,6 +1229,8 @@ def shrinks(case):
 
 
 def embeds(small, big):
+    if "helper" in small or "helper" in big:
+        return small.get("helper") == big.get("helper")
     if "trace" in small:
         return "trace" in big and small["target"] == big["target"]
     if "history" in small and "history" in big:
@@ -1184,6 +1240,8 @@ def embeds(small, big):
 
 
 def fingerprint_view(case):
+    if "helper" in case:
+        return {"helper": case["helper"]}
     if "trace" in case:
         return {"target": case["target"]}
     return case
@@ -1348,16 +1406,26 @@ def run(ctx):
         ctrans += r["trans"]
         fails += [tuple(x) for x in r["fails"]]
     mark("cold_histories")
+    # helper histories: a memo table of a pure helper may not make an answer depend on the earlier calls
+    hh = 0
+    for case in helper_histories(quick):
+        hh += 1
+        for clause, msg in _ttf_history(case["font"], case["history"]):
+            fails.append((clause, "helper", case, msg))
+    mark("helper_histories")
     samples.append({"history": hists[0] if hists else None, "cold_history": chists[0] if chists else None, "alphabet": ops,
                     "restore_documents_per_class": {k: by_class[k][1] for k in sorted(by_class)}})
-    cov = {"states": execs + hev + cev, "transitions": steps + htrans + ctrans, "traces_validated_against_impl": execs + hev + cev, "samples": samples,
-           "evaluations": execs + hev + cev, "distinct_nontrivial": len(outcomes),
+    cov = {"states": execs + hev + cev + hh, "transitions": steps + htrans + ctrans + hh * (2 if quick else 3), "traces_validated_against_impl": execs + hev + cev + hh, "samples": samples,
+           "evaluations": execs + hev + cev + hh, "distinct_nontrivial": len(outcomes),
            "schedules": {"executions": execs, "scheduling_steps": steps, "per_target": per, "distinct_outcomes": len(outcomes),
                          "outcomes": dict(list(sorted(outcomes.items()))[:60])},
            "real_extraction_pairs": x2cov,
            "histories": {"histories": hev, "extractions": htrans, "alphabet_size": len(ops), "documents": len(alpha), "restore_operations": len(rops),
                          "deep_documents": deep, "midfail_documents": midfail, "pairs": len(pairs), "triples": len(triples), "triple_alphabet": sub,
                          "watched_module_namespaces": watched, "settings_watched": sorted(c15_state.settings())},
+           "helper_histories": {"histories": hh, "helper": "pdf_extractor._ttf_get_glyph_features over _FONT_CACHE" if _ttf_helper() else "absent (skipped)",
+                                "fonts": [f for f in TTF_FONTS if os.path.exists(f)], "glyph_lists": [list(x) for x in TTF_GLYPH_LISTS],
+                                "length": 2 if quick else 3},
            "cold_histories": {"histories": cev, "operations": ctrans, "alphabet": cops, "pairs": len(cpairs), "triples": len(ctriples),
                               "process": "fork of a process that only imported sharepoint2text, one per history"},
            "rule": "schedules: all interleavings of 2 threads with <= 2 (quick) / 3 preemptions and 3 threads with <= 1 / 2 preemptions through "
@@ -1386,6 +1454,9 @@ def run(ctx):
                                           "deep_nesting_depths": sorted({c15_docs.MULT[x.split(":")[2]] for x in deep}), "restore_classes": len(rops)}}
     return {"coverage": cov, "failures": fails, "harness_errors": herr,
             "assumptions": ["line-level scheduling points suffice: each traced line performs at most one shared-state access",
+                            "helper histories: the PDF font-analysis memo is exercised directly (all sequences of 2 / 3 glyph lists over 6 lists on a "
+                            "system TrueType font; skipped when the helper, its memo table or the font file does not exist) - no generated PDF here "
+                            "carries a CID font that maps digits to NUL, which is the only way to reach it end to end",
                             "pairs of real extractions: a thread is descheduled only around the lines at which a watched setting or a module-level "
                             "binding / container size of the library changes when the document is extracted alone (first 2 visits of a line); reads of "
                             "that state and rebinding of third-party module attributes are no scheduling points (the latter: pdfpatch target, ModState)",
